@@ -146,15 +146,26 @@ pub fn run(tier: &str) -> Part {
             }
         }
     }
-    for (default_role, pr) in &configs {
+    // with and without an automatic sharding key (3 shards): shard inference runs inside the same function
+    // as the role decision and has error paths of its own (key updated, keys of several shards)
+    for ask in [None, Some("t1.a"), Some("*.a")] {
+      for (default_role, pr) in &configs {
         for (sql, kind, name) in &msgs {
+            if ask.is_some() && (name.contains(":pad") || (name.contains('+') && !thorough)) {
+                continue;
+            }
             for proto in ["Q", "P"] {
                 evals += 1;
                 messages.insert(sql.clone());
                 let m = if proto == "Q" { q(sql) } else { bm(&wire::parse("", sql, &[])) };
                 let r = guarded(|| {
                     let mut qr = QueryRouter::new();
-                    qr.update_pool_settings(&settings(*default_role, *pr));
+                    let mut ps = settings(*default_role, *pr);
+                    if let Some(k) = ask {
+                        ps.shards = 3;
+                        ps.automatic_sharding_key = Some(k.to_string());
+                    }
+                    qr.update_pool_settings(&ps);
                     qr.set_default_role();
                     match route(&mut qr, &m) {
                         Ok(_) => Some(qr.role()),
@@ -174,7 +185,7 @@ pub fn run(tier: &str) -> Part {
                                 add(
                                     vio(
                                         &format!("C05.{}", what),
-                                        format!("C05.{}:{}", what, if name.contains('+') { name.clone() } else { name.clone() }),
+                                        format!("C05.{}:{}{}", what, name, if ask.is_some() { ":automatic-sharding-key" } else { "" }),
                                         format!(
                                             "{} message {:?} (default_role {}, primary_reads {}): routed to {:?}, required {:?}",
                                             proto,
@@ -185,7 +196,7 @@ pub fn run(tier: &str) -> Part {
                                             w
                                         ),
                                     ),
-                                    json!({"sql": sql, "protocol": proto, "default_role": role_name(*default_role), "primary_reads": pr}),
+                                    json!({"sql": sql, "protocol": proto, "default_role": role_name(*default_role), "primary_reads": pr, "automatic_sharding_key": ask}),
                                 );
                             }
                         }
@@ -193,6 +204,7 @@ pub fn run(tier: &str) -> Part {
                 }
             }
         }
+      }
     }
 
     // (2) histories: per-session overrides and recomputation for each new message
